@@ -250,11 +250,6 @@ where
     fn solve(&mut self, timeout: Duration) -> Result<Path<S>, PlanningError> {
         #[cfg(feature = "verif")]
         use crate::verif::Instant;
-        let mut rng = self
-            .rng
-            .take()
-            .unwrap_or_else(|| Box::new(StdRng::from_os_rng()));
-        let start_time = Instant::now();
         let pd = self
             .problem_def
             .as_ref()
@@ -271,11 +266,17 @@ where
             return Err(PlanningError::NoSolutionFound);
         }
 
+        let mut rng = self
+            .rng
+            .take()
+            .unwrap_or_else(|| Box::new(StdRng::from_os_rng()));
+        let start_time = Instant::now();
+
         // Main loop
-        loop {
+        let result = loop {
             // 1. Check for timeout
             if start_time.elapsed() > timeout {
-                return Err(PlanningError::Timeout);
+                break Err(PlanningError::Timeout);
             }
 
             // 2. Determine which tree to grow (tree_a) and which to connect to (tree_b). This
@@ -304,7 +305,7 @@ where
                 // If growing the start tree, check if the new node is already in the goal.
                 if is_growing_start_tree && goal.is_satisfied(q_new) {
                     println!("Solution found by start tree reaching goal directly.");
-                    return Ok(self.reconstruct_path(&self.start_tree, new_node_idx_a));
+                    break Ok(self.reconstruct_path(&self.start_tree, new_node_idx_a));
                 }
 
                 // 5. Try to connect tree_b to the new state `q_new`.
@@ -335,11 +336,14 @@ where
                         // connection point) to the start path.
                         start_path.extend(goal_path.into_iter().skip(1));
 
-                        return Ok(Path(start_path));
+                        break Ok(Path(start_path));
                     }
                 }
             }
-        }
+        };
+        // Keep the generator so that later calls continue the seeded sequence.
+        self.rng = Some(rng);
+        result
     }
 }
 
